@@ -286,16 +286,9 @@ func (b *BoundedBacktracker) SearchAtWithState(haystack []byte, at int, state *B
 		if end >= 0 {
 			return startPos, end, true
 		}
-		// O(1) reset: increment generation instead of O(n) array clear
-		// This is the key optimization that makes Search fast on large inputs
-		state.Generation++
-		// Handle overflow by resetting the array (every 256 searches)
-		if state.Generation == 0 {
-			for i := range state.Visited {
-				state.Visited[i] = 0
-			}
-			state.Generation = 1
-		}
+		// The visited table is deliberately kept across start positions: a
+		// (state, pos) pair that failed from an earlier start fails from this
+		// one too, which bounds the whole search by O(states * len).
 	}
 	return -1, -1, false
 }
